@@ -5,6 +5,14 @@ IND = "obj:Individual"
 SRV = "obj:Server"
 
 
+def INV(text):
+    """a structural invariant of the simulation used as a precondition: assumed at function entry and at
+    internal call sites (see pyvc.calls.apply_contract); every function is still obliged to re-establish
+    the invariants named in its own `ensures`"""
+    import re as _re
+    return ("inv:" + _re.sub(r"[^A-Za-z0-9_]+", "-", text)[:60], text)
+
+
 def declare(spec):
     M = spec.macros
     # a node with a finite number of servers has its `servers` list (created in __init__ only then)
@@ -12,8 +20,8 @@ def declare(spec):
 
     # all customers at the node: the single priority line itself, or a fresh list with the lines' members
     add(spec, "Node.all_individuals",
-        requires=["len(self.individuals) == self.simulation.number_of_priority_classes", "self.simulation.number_of_priority_classes >= 1"],
-        returns="list:Any", allocates=True, modifies=[],
+        requires=[INV("len(self.individuals) == self.simulation.number_of_priority_classes"), "self.simulation.number_of_priority_classes >= 1"],
+        returns="list:Any", allocates=True, modifies=[], pure=True,
         ensures=[
             ("members-are-customers", "forall_in(result, lambda x: is_obj(x, 'Individual'))"),
             ("every-customer-of-a-line-is-a-member",
@@ -29,7 +37,7 @@ def declare(spec):
 
     add(spec, "Node.find_free_server",
         types={"ind": IND},
-        requires=["has_servers(self)"],
+        requires=[INV("has_servers(self)")],
         returns="opt:" + SRV, allocates=True, modifies=[],
         ensures=[
             ("inf-servers-none", "implies(isinf(self.c), result is None)"),
@@ -44,7 +52,7 @@ def declare(spec):
         props=["C04", "C05"])
 
     add(spec, "Node.choose_next_customer",
-        requires=["len(self.individuals) == self.simulation.number_of_priority_classes", "pop_fwd(self)"],
+        requires=[INV("len(self.individuals) == self.simulation.number_of_priority_classes"), INV("pop_fwd(self)")],
         returns="opt:" + IND, allocates=True, modifies=[],
         ensures=[
             ("C05:none-iff-nobody-waits",
@@ -100,7 +108,12 @@ def declare(spec):
     M["prev_prio_ok"] = "lambda n, i: 0 <= i.prev_priority_class and i.prev_priority_class < len(n.individuals)"
     # a customer in service at a node with real servers holds one of the node's servers
     M["holds_server"] = ("lambda n, i: implies(not isinf(n.c) and not n.slotted, "
-                         "is_obj(i.server, 'Server') and as_obj(i.server, 'Server') in n.servers)")
+                         "is_obj(i.server, 'Server') and as_obj(i.server, 'Server') in n.servers "
+                         "and is_fin(as_obj(i.server, 'Server').busy_time) and is_fin(as_obj(i.server, 'Server').start_date) "
+                         "and (as_obj(i.server, 'Server').shift_end is False or is_fin(as_obj(i.server, 'Server').shift_end)))")
+    # float-world dates (ordinary nodes): False or an int / float
+    M["float_dates"] = ("lambda i: (i.arrival_date is False or is_fin(i.arrival_date)) and (i.service_start_date is False or is_fin(i.service_start_date)) "
+                        "and (i.service_end_date is False or is_fin(i.service_end_date))")
 
     for leaf in ["attach_server", "detatch_server", "kill_server", "write_individual_record",
                  "write_interruption_record", "write_reneging_record", "write_baulking_or_rejection_record",
@@ -143,7 +156,7 @@ def declare(spec):
     # ---- class change after service (C09) --------------------------------------------------------------
     add(spec, "Node.change_customer_class",
         types={"individual": IND},
-        requires=["net_ok(self)", "cls_ok(self, individual)",
+        requires=[INV("net_ok(self)"), "cls_ok(self, individual)",
                   "implies(self.class_change, individual.customer_class in self.class_change and "
                   "forall_in(self.simulation.network.customer_class_names, lambda b: b in self.class_change[individual.customer_class] "
                   "and is_fin(self.class_change[individual.customer_class][b]) and self.class_change[individual.customer_class][b] >= 0))"],
@@ -186,7 +199,7 @@ def declare(spec):
                 ["number_in_service@self", "next_class_change_date@self", "next_class_change_ind@self"])
 
     add(spec, "Node.find_next_class_change",
-        requires=["shape(self)",
+        requires=[INV("shape(self)"),
                   "forall_in(self.individuals, lambda q: forall_in(q, lambda i: has(i, 'class_change_date')))"],
         modifies=["next_class_change_date@self", "next_class_change_ind@self"], allocates=True,
         loop_invariants={0: [
@@ -209,7 +222,7 @@ def declare(spec):
     # ---- candidates for the node's next event -------------------------------------------------------------
     PNE_MOD = ["$dict@self.possible_next_events", "$seq[Local]"]
     add(spec, "Node.update_next_end_service_with_server",
-        requires=["has(self, 'possible_next_events')", "has_servers(self)", "'end_service' not in self.possible_next_events"],
+        requires=["has(self, 'possible_next_events')", INV("has_servers(self)"), "'end_service' not in self.possible_next_events"],
         modifies=PNE_MOD, allocates=True,
         ensures=[
             ("not-applicable-nothing-written", "implies(self.slotted or isinf(self.c), 'end_service' not in self.possible_next_events)"),
@@ -237,7 +250,7 @@ def declare(spec):
         props=["C02", "C07"])
 
     add(spec, "Node.update_next_end_service_without_server",
-        requires=["has(self, 'possible_next_events')", "shape(self)", "'end_service' not in self.possible_next_events"],
+        requires=["has(self, 'possible_next_events')", INV("shape(self)"), "'end_service' not in self.possible_next_events"],
         modifies=PNE_MOD, allocates=True,
         ensures=[
             ("not-applicable-nothing-written", "implies(not (self.slotted or isinf(self.c)), 'end_service' not in self.possible_next_events)"),
@@ -267,7 +280,7 @@ def declare(spec):
     # ---- class change while waiting: draw the next class and date (C09 / C02 / C10) ----------------------------
     add(spec, "Node.decide_class_change",
         types={"next_individual": IND},
-        requires=["shape(self)", "net_ok(self)", "cls_ok(self, next_individual)", "float_clock(self)",
+        requires=[INV("shape(self)"), INV("net_ok(self)"), "cls_ok(self, next_individual)", INV("float_clock(self)"),
                   "implies(self.dynamic_classes is True, forall_in(self.individuals, lambda q: forall_in(q, lambda i: "
                   "ref_eq(i, next_individual) or has(i, 'class_change_date'))))"],
         modifies=["next_class@next_individual", "class_change_date@next_individual", "next_class_change_date@self",
@@ -298,7 +311,7 @@ def declare(spec):
 
     add(spec, "Node.begin_interrupted_individuals_service",
         types={"srvr": SRV},
-        requires=["net_ok(self)", "float_clock(self)", "interrupted_head_ok(self)"],
+        requires=[INV("net_ok(self)"), INV("float_clock(self)"), "interrupted_head_ok(self)"],
         modifies=[f + "@self.interrupted_individuals[0]" for f in RESTART_FIELDS] +
                  [f + "@srvr" for f in ATTACH_FIELDS] +
                  ["number_in_service@self", "number_interrupted_individuals@self", "$seq@self.interrupted_individuals",
@@ -326,12 +339,12 @@ def declare(spec):
     # ---- starting the next service when a server is freed (release) ---------------------------------------------
     add(spec, "Node.begin_service_if_possible_release",
         types={"next_individual": IND, "newly_free_server": "opt:" + SRV},
-        requires=["shape(self)", "net_ok(self)", "float_clock(self)", "has_servers(self)", "dyn_ok(self)", "pop_fwd(self)",
-                  "all_waiting_ok(self)", "implies(isinf(self.c), newly_free_server is None)",
-                  "self.number_interrupted_individuals == len(self.interrupted_individuals)",
+        requires=[INV("shape(self)"), INV("net_ok(self)"), INV("float_clock(self)"), INV("has_servers(self)"), INV("dyn_ok(self)"), INV("pop_fwd(self)"),
+                  INV("all_waiting_ok(self)"), "implies(isinf(self.c), newly_free_server is None)",
+                  INV("self.number_interrupted_individuals == len(self.interrupted_individuals)"),
                   "implies(newly_free_server is not None and newly_free_server in self.servers, not newly_free_server.busy)",
-                  "implies(not isinf(self.c) and self.number_interrupted_individuals > 0, interrupted_head_ok(self))",
-                  "implies(self.dynamic_classes, forall_in(self.individuals, lambda q: forall_in(q, lambda i: has(i, 'class_change_date'))))"],
+                  INV("implies(not isinf(self.c) and self.number_interrupted_individuals > 0, interrupted_head_ok(self))"),
+                  INV("implies(self.dynamic_classes, forall_in(self.individuals, lambda q: forall_in(q, lambda i: has(i, 'class_change_date'))))")],
         modifies=[f + AT_SELF for f in RESTART_FIELDS] + [f + "@newly_free_server" for f in ATTACH_FIELDS] +
                  ["number_in_service@self", "next_class_change_date@self", "next_class_change_ind@self",
                   "number_interrupted_individuals@self", "$seq@self.interrupted_individuals", "$seq[BlockedQ]", "len_blocked_queue"],
@@ -372,10 +385,10 @@ def declare(spec):
     M["wc_except"] = ("lambda n, x: isinf(n.c) or forall_in(n.servers, lambda s: s.busy) or "
                       "forall_obj('Individual', lambda i: implies(ref_eq(loc(i), n) and not ref_eq(i, x), i.server), trigger=lambda i: loc(i))")
 
-    BSIPA_REQ = ["shape(self)", "net_ok(self)", "float_clock(self)", "has_servers(self)", "dyn_ok(self)",
+    BSIPA_REQ = [INV("shape(self)"), INV("net_ok(self)"), INV("float_clock(self)"), INV("has_servers(self)"), INV("dyn_ok(self)"),
                  "cls_ok(self, next_individual)", "ref_eq(loc(next_individual), self)", "not next_individual.server",
                  "prio_ok(self, next_individual)", "next_individual in self.individuals[next_individual.priority_class]",
-                 "pop_fwd(self)",
+                 INV("pop_fwd(self)"),
                  "implies(self.dynamic_classes, forall_in(self.individuals, lambda q: forall_in(q, lambda i: "
                  "ref_eq(i, next_individual) or has(i, 'class_change_date'))))"]
     add(spec, "Node.begin_service_if_possible_accept",
@@ -409,11 +422,11 @@ def declare(spec):
         props=["C02", "C04", "C05", "C08", "C10", "C11", "C13"])
 
     # ---- arrival of a customer at a node ---------------------------------------------------------------------------
-    ACCEPT_REQ = ["shape(self)", "net_ok(self)", "float_clock(self)", "has_servers(self)", "dyn_ok(self)", "pop_fwd(self)",
+    ACCEPT_REQ = [INV("shape(self)"), INV("net_ok(self)"), INV("float_clock(self)"), INV("has_servers(self)"), INV("dyn_ok(self)"), INV("pop_fwd(self)"),
                   "prio_ok(self, next_individual)", "cls_ok(self, next_individual)",
                   ("C01:customer-is-nowhere", "loc(next_individual) is None"),
-                  "not next_individual.server", "all_waiting_ok(self)",
-                  "implies(self.dynamic_classes, forall_in(self.individuals, lambda q: forall_in(q, lambda i: has(i, 'class_change_date'))))"]
+                  "not next_individual.server", INV("all_waiting_ok(self)"),
+                  INV("implies(self.dynamic_classes, forall_in(self.individuals, lambda q: forall_in(q, lambda i: has(i, 'class_change_date'))))")]
     add(spec, "Node.accept",
         types={"next_individual": IND, "completed": "bool"},
         requires=ACCEPT_REQ,
@@ -429,7 +442,7 @@ def declare(spec):
         expect_calls={"begin_service_if_possible_accept": 1, "change_state_accept": 1},
         cases=[
             dict(name="nopreempt", when="self.priority_preempt is False or isinf(self.c)",
-                 requires=[("C05:work-conserving-before-the-arrival", "wc(self)")],
+                 requires=[INV("wc(self)")],
                  modifies=[f + AT_SELF for f in START_FIELDS] + [f + "@next_individual" for f in IND_FIELDS] +
                           [f + "@S(self.servers)" for f in ATTACH_FIELDS] +
                           ["number_in_service@self", "next_class_change_date@self", "next_class_change_ind@self",
@@ -448,3 +461,115 @@ def declare(spec):
             dict(name="preempt", when="not (self.priority_preempt is False or isinf(self.c))", modifies=["*"], ensures=[]),
         ],
         props=["C01", "C02", "C03", "C05", "C06", "C07", "C13", "C14", "C17"])
+
+    # ---- departure of a customer from a node (C01 / C03 / C04 / C07) -----------------------------------------------
+    M["in_service_dates_ok"] = ("lambda n, i: is_time(i.arrival_date) and is_time(i.service_start_date) and is_time(i.service_end_date) "
+                                "and is_fin(i.arrival_date) and is_fin(i.service_start_date) and is_fin(i.service_end_date) "
+                                "and i.arrival_date <= i.service_start_date and i.service_start_date <= i.service_end_date "
+                                "and i.service_end_date <= n.now")
+    M["node_ready"] = ("lambda n, m, i: cls_is(m, 'ExitNode') or (prio_ok(as_obj(m, 'Node'), i) "
+                       "and ref_eq(as_obj(m, 'Node').simulation, n.simulation))")
+
+    add(spec, "Node.release",
+        types={"next_individual": IND, "next_node": "obj:Node|ExitNode", "reroute": "bool"},
+        requires=[INV("shape(self)"), INV("net_ok(self)"), INV("float_clock(self)"), INV("has_servers(self)"), INV("dyn_ok(self)"),
+                  INV("pop_fwd(self)"), INV("all_waiting_ok(self)"),
+                  INV("self.number_interrupted_individuals == len(self.interrupted_individuals)"),
+                  INV("implies(not isinf(self.c) and self.number_interrupted_individuals > 0, interrupted_head_ok(self))"),
+                  INV("implies(self.dynamic_classes, forall_in(self.individuals, lambda q: forall_in(q, lambda i: has(i, 'class_change_date'))))"),
+                  "prev_prio_ok(self, next_individual)",
+                  ("C01:customer-is-filed-here", "next_individual in self.individuals[next_individual.prev_priority_class] and ref_eq(loc(next_individual), self)"),
+                  ("C04:customer-holds-one-of-this-nodes-servers", "holds_server(self, next_individual)"),
+                  "implies(isinf(self.c), not next_individual.server)",
+                  ("C06+C07:destination-has-room-unless-rerouting",
+                   "reroute or cls_is(next_node, 'ExitNode') or next_node.number_of_individuals < next_node.node_capacity"),
+                  "node_ready(self, next_node, next_individual)", "cls_ok(self, next_individual)", "float_dates(next_individual)",
+                  "is_fin(self.next_event_date) or is_pinf(self.next_event_date)",
+                  ("C02:dates-of-a-completed-service", "implies(not reroute, in_service_dates_ok(self, next_individual))")],
+        modifies=["*"], allocates="any", raises=[("ValueError", "True")],
+        at_call={"accept": [
+            ("C01:removed-once-from-its-line",
+             "S(self.individuals[old(next_individual.prev_priority_class)]) == remove1(old(S(self.individuals[next_individual.prev_priority_class])), next_individual)"),
+            ("C01:population-counter-decremented", "self.number_of_individuals == old(self.number_of_individuals) - 1"),
+            ("C09:in-service-counter-decremented", "self.number_in_service >= old(self.number_in_service) - 1 and self.number_in_service <= old(self.number_in_service)"),
+            ("C01:customer-is-nowhere-between-release-and-accept", "loc(next_individual) is None"),
+            ("C04:server-given-up", "not next_individual.server"),
+            ("C03+C02:service-record-written-once-with-the-fixed-destination",
+             "implies(not reroute, len(next_individual.data_records) == old(len(next_individual.data_records)) + 1 "
+             "and next_individual.data_records[len(next_individual.data_records) - 1].node == self.id_number "
+             "and ref_eq(next_individual.data_records[len(next_individual.data_records) - 1].destination, old(next_individual.destination)) "
+             "and next_individual.data_records[len(next_individual.data_records) - 1].exit_date == self.now "
+             "and next_individual.data_records[len(next_individual.data_records) - 1].record_type == 'service')"),
+            ("C02:record-arithmetic",
+             "implies(not reroute, "
+             "next_individual.data_records[len(next_individual.data_records) - 1].waiting_time == old(next_individual.service_start_date) - old(next_individual.arrival_date) "
+             "and next_individual.data_records[len(next_individual.data_records) - 1].waiting_time >= 0 "
+             "and next_individual.data_records[len(next_individual.data_records) - 1].service_time == old(next_individual.service_end_date) - old(next_individual.service_start_date) "
+             "and next_individual.data_records[len(next_individual.data_records) - 1].service_time >= 0 "
+             "and next_individual.data_records[len(next_individual.data_records) - 1].time_blocked == self.now - old(next_individual.service_end_date) "
+             "and next_individual.data_records[len(next_individual.data_records) - 1].time_blocked >= 0 "
+             "and next_individual.data_records[len(next_individual.data_records) - 1].arrival_date == old(next_individual.arrival_date) "
+             "and next_individual.data_records[len(next_individual.data_records) - 1].service_start_date == old(next_individual.service_start_date) "
+             "and next_individual.data_records[len(next_individual.data_records) - 1].service_end_date == old(next_individual.service_end_date))"),
+            ("C03:rerouted-customer-gets-no-service-record", "implies(reroute, len(next_individual.data_records) == old(len(next_individual.data_records)))"),
+        ], "release_blocked_individual": [
+            ("C07:unblocking-is-tried-only-after-the-customer-has-left", "not reroute"),
+        ]},
+        expect_calls={"accept": 1, "change_state_release": 1},
+        ensures=[],
+        props=["C01", "C02", "C03", "C04", "C06", "C07", "C09", "C17"])
+
+    # ---- unblocking (C07): the customer blocked longest towards this node moves in as soon as there is room ----------
+    # I-POP / I-FILE / I-SRV / I-BLK for one customer located at node m (ghost-based, flat)
+    M["cust_ok"] = ("lambda m, i: 0 <= i.prev_priority_class and i.prev_priority_class < len(m.individuals) "
+                    "and i in m.individuals[i.prev_priority_class] and holds_server(m, i) and cls_ok(m, i) "
+                    "and implies(isinf(m.c), not i.server) and float_dates(i) "
+                    "and implies(i.is_blocked and not i.interrupted, in_service_dates_ok(m, i)) "
+                    "and implies(i.interrupted, has(i, 'original_service_start_date') and has(i, 'original_service_time') "
+                    "  and is_time(i.original_service_start_date) and is_fin(i.original_service_start_date) "
+                    "  and is_time(i.original_service_time) and is_fin(i.original_service_time) and i.original_service_time >= 0 "
+                    "  and i.original_service_start_date + i.original_service_time <= m.now and i.arrival_date <= i.original_service_start_date "
+                    "  and i in m.interrupted_individuals)")
+    M["all_cust_ok"] = ("lambda: forall_obj('Individual', lambda i: implies(is_obj(loc(i), 'Node'), cust_ok(as_obj(loc(i), 'Node'), i)), "
+                        "trigger=lambda i: loc(i))")
+    M["blk_head_ok"] = (
+        "lambda n: n.len_blocked_queue == len(n.blocked_queue) and implies(n.len_blocked_queue > 0, "
+        "1 <= n.blocked_queue[0][0] and n.blocked_queue[0][0] <= nnodes() and is_obj(n.simulation.nodes[n.blocked_queue[0][0]], 'Node') "
+        "and shape(as_obj(n.simulation.nodes[n.blocked_queue[0][0]], 'Node')))")
+
+    add(spec, "Node.release_blocked_individual",
+        requires=[INV("shape(self)"), INV("net_ok(self)"), INV("blk_head_ok(self)"), INV("all_cust_ok()"),
+                  INV("forall_obj('Node', lambda m: is_fin(m.next_event_date) or is_pinf(m.next_event_date))"),
+                  INV("implies(self.len_blocked_queue > 0 and self.number_of_individuals < self.node_capacity, "
+                      "exists_obj('Individual', lambda i: ref_eq(loc(i), self.simulation.nodes[self.blocked_queue[0][0]]) and i.id_number == self.blocked_queue[0][1]))")],
+        modifies=["*"], allocates="any", raises=[("ValueError", "True")],
+        lemma_after={"all_individuals": [
+            "exists_in(result, lambda x: as_obj(x, 'Individual').id_number == self.blocked_queue[0][1])",
+            "implies(as_obj(result[individual_to_receive_index], 'Individual').interrupted, "
+            "  has(as_obj(result[individual_to_receive_index], 'Individual'), 'original_service_start_date') "
+            "  and has(as_obj(result[individual_to_receive_index], 'Individual'), 'original_service_time') "
+            "  and is_time(as_obj(result[individual_to_receive_index], 'Individual').original_service_start_date) "
+            "  and is_fin(as_obj(result[individual_to_receive_index], 'Individual').original_service_start_date) "
+            "  and is_time(as_obj(result[individual_to_receive_index], 'Individual').original_service_time) "
+            "  and is_fin(as_obj(result[individual_to_receive_index], 'Individual').original_service_time) "
+            "  and as_obj(result[individual_to_receive_index], 'Individual') in node_to_receive_from.interrupted_individuals)"]},
+        # I-POP / I-FILE / I-SRV / I-BLK for the customer named by the head entry (ASSUMED here; each is what accept,
+        # block_individual and the service-start functions establish for the customers they handle)
+        call_assumes={"release": [
+            "prev_prio_ok(self, next_individual)",
+            "next_individual in self.individuals[next_individual.prev_priority_class] and ref_eq(loc(next_individual), self)",
+            "holds_server(self, next_individual)", "implies(isinf(self.c), not next_individual.server)",
+            "cls_ok(self, next_individual)", "float_dates(next_individual)", "prio_ok(next_node, next_individual)",
+            "ref_eq(next_node.simulation, self.simulation)", "in_service_dates_ok(self, next_individual)"]},
+        at_call={"release": [
+            ("C07:head-of-the-blocked-queue-popped",
+             "S(self.blocked_queue) == remove_at(old(S(self.blocked_queue)), 0) and self.len_blocked_queue == old(self.len_blocked_queue) - 1"),
+            ("C07:only-when-there-is-room", "self.number_of_individuals < self.node_capacity"),
+        ]},
+        cases=[
+            dict(name="nothing-to-do", when="not (self.len_blocked_queue > 0 and self.number_of_individuals < self.node_capacity)",
+                 modifies=[], ensures=[], expect_calls={"release": 0}),
+            dict(name="unblock", when="self.len_blocked_queue > 0 and self.number_of_individuals < self.node_capacity",
+                 modifies=["*"], ensures=[], expect_calls={"release": 1}),
+        ],
+        props=["C01", "C07"])
